@@ -824,6 +824,12 @@ func (o *Array) UnmarshalBinary(data []byte) error {
 		return errors.New("invalid ugo.Array length")
 	}
 
+	// The declared length is a hint only: every level of a nested encoding
+	// may claim as many elements as there are bytes left, which made the
+	// memory reserved in advance quadratic in the nesting depth.
+	if length > 64 {
+		length = 64
+	}
 	arr := make([]ugo.Object, 0, int(length))
 	for rd.Len() > 0 {
 		o, err := DecodeObject(rd)
